@@ -36,7 +36,7 @@ CLAIMS = {
          "4 C21", "oracle is a 30-line arithmetic restatement of docs/serde-2026.md"),
  "C25": ("Every operator and run_program harness runs with Rust panic, arithmetic-overflow, slice-bounds and unwinding checks on and asserts that no outcome is EvalErr::InternalError; argument lists include pairs where atoms are expected and wrong arities.",
          "10.3 C25", "run_program beyond five templates, arithmetic operators on non-trivial operands and stack limits are outside the bound"),
- "C29": ("LimitedWriter + write_atom for every atom of 0..3 bytes and every limit; node_to_stream through LimitedWriter for (x . y) (quick) and three 2-pair shapes (thorough): Ok(identical bytes) iff length <= limit else exactly OutOfMemory.",
+ "C29": ("LimitedWriter + write_atom for every atom of 0..3 bytes and every limit; node_to_stream through LimitedWriter for the pair (x . y): Ok(identical bytes) iff length <= limit else exactly OutOfMemory.",
          "10.3 C29", "the public node_to_bytes_limit wrapper (Cursor<Vec<u8>> sink) did not finish; the back-reference serializer only through the shared writer pieces"),
 }
 NA = {
